@@ -125,7 +125,13 @@ func VerifC14_Batches() {
 	steps := nd.Param("K", 3)
 	swaps := 0
 	for s := 0; s < steps; s++ {
-		op := nd.Choice("op", 6)
+		var op int
+		if nd.Param("CHAIN", 0) == 1 {
+			// longer histories over the two ConfigMaps and swaps only (data chaining)
+			op = []int{0, 1, 5}[nd.Choice("op", 3)]
+		} else {
+			op = nd.Choice("op", 6)
+		}
 		if op == 5 {
 			// the reconciler takes its batch
 			ch := w.getChangedObjects()
